@@ -31,21 +31,29 @@ def avl_shapes(h, memo={}):
     return r
 
 
-def rb_shapes(bh, memo={}):
-    """(black-rooted trees with black height bh, red-rooted trees with black height bh).
-    Tree = None | (color, l, r); color 'B'/'R'; black height counts black nodes on a root-to-nil path."""
-    if bh in memo:
-        return memo[bh]
-    if bh == 0:
-        blacks = [None]
+def rb_gen(bh, color, maxn, memo={}):
+    """Red-black subtrees with black height bh (black nodes on a root-to-nil path), root colour
+    `color` ('B' or 'R'), at most maxn nodes, no red-red.  Tree = None | (color, l, r)."""
+    key = (bh, color, maxn)
+    if key in memo:
+        return memo[key]
+    out = []
+    if color == "B":
+        if bh == 0:
+            out = [None]
+        elif maxn >= 1:
+            for l in rb_gen(bh - 1, "B", maxn - 1) + rb_gen(bh - 1, "R", maxn - 1):
+                rest = maxn - 1 - size(l)
+                for r in rb_gen(bh - 1, "B", rest) + rb_gen(bh - 1, "R", rest):
+                    out.append(("B", l, r))
     else:
-        pb, pr = rb_shapes(bh - 1)
-        sub = pb + pr
-        blacks = [("B", l, r) for l in sub for r in sub]
-    # red root: both children black-rooted (or nil) with black height bh
-    reds = [("R", l, r) for l in blacks for r in blacks]
-    memo[bh] = (blacks, reds)
-    return memo[bh]
+        if maxn >= 1:
+            for l in rb_gen(bh, "B", maxn - 1):
+                rest = maxn - 1 - size(l)
+                for r in rb_gen(bh, "B", rest):
+                    out.append(("R", l, r))
+    memo[key] = out
+    return out
 
 
 def size(t):
@@ -64,17 +72,15 @@ def height(t):
 
 
 def rb_trees_upto(n):
+    """Every valid red-black tree (black root) with at most n nodes, including the empty tree."""
     out = []
     bh = 0
     while True:
-        blacks, _ = rb_shapes(bh)
-        sel = [t for t in blacks if size(t) <= n]
+        sel = rb_gen(bh, "B", n)
         if bh > 0 and not sel:
             break
         out += sel
         bh += 1
-        if bh > 4:
-            break
     return out
 
 
